@@ -17,9 +17,10 @@ AUDIT = "Audit/C11.lean"
 GENERATED = ["Consts", "IffSrc"]
 ASSUMPTIONS = [
     "if-feature: `lysp_feature_find` (prefix resolution + lookup by name) is an abstract function `lookup` in the theorems; the driver instantiates it with the module/import table of the request",
-    "if-feature theorems are about YANG 1.1 modules (the YANG 1.0 `checkversion` path is covered by the correspondence only)",
-    "range: `strtoll`/`strtoull` are modelled on the strings that can reach them (`[+-]?[0-9]*`), decimal64 through the normalised copy exactly as the C code builds it",
-    "the schema compiler proper (uses/augment/deviation expansion) is not modelled: construct-vs-expansion equivalence and load-order independence are checked metamorphically, not proved",
+    "if-feature theorems are about YANG 1.1 modules (the YANG 1.0 `checkversion` path is covered by the correspondence only); feature names in the grammar AST are any blank/parenthesis-free words other than the literal keywords not/and/or",
+    "range: `strtoll`/`strtoull` are modelled on the strings that can reach them (`[+-]?[0-9]*`), decimal64 through the normalised copy exactly as the C code builds it; the grammar theorem (range_parse_correct_partial) covers integer ranges and lengths, decimal64 is covered by the correspondence only",
+    "models are parametrised by which candidate repairs (fixes/F3, F13, F30, F51) the source contains; Generated/IffSrc.lean (tools/extractors/iff.py) reads that off the C text of $VERIF_REPO on every run and refuses unknown shapes; theorems are stated for every flag value, `_fails` for the pinned tree ({}), `_fixed` for the repaired one",
+    "the schema compiler proper (uses/augment/deviation expansion) is not modelled: construct-vs-expansion equivalence and load-order independence are checked metamorphically against an RFC reference expander (tools/checks/c11meta.py), not proved; instance acceptance of the two renderings is not compared (only the effective schema text)",
 ]
 TRUSTED = ["harness/wb_iff.c", "harness/api_compile.c", "reference grammar readers in tools/checks/c11.py (written from RFC 7950 §14)"]
 HARNESS = "wb_iff"
